@@ -15,6 +15,15 @@ class Spec:
     assumptions = []
     no_longer_checked = ""
 
+    def coq_targets(self):
+        """make targets this property needs: its theorems, the monitors and checkers (never another property's obligations)"""
+        return ["theories/Properties/%s.vo" % self.prop, "theories/Mon/All.vo", "theories/Corr/AllocCorr.vo",
+                "theories/Corr/FramingCorr.vo"]
+
+    def obligation_failure(self, out):
+        """called when the Coq build of this property's targets fails; returns a replay body or None"""
+        return None
+
     def gen(self, tier, seed, out_path, stats_path, search=False):
         raise NotImplementedError
 
@@ -87,9 +96,18 @@ def run(spec, tier, seed, t0):
     bad = C.hygiene()
     if bad:
         raise C.CheckError("forbidden tokens in the development: %s" % bad)
-    ok, out = C.coq_make()
+    ok, out = C.coq_make(targets=spec.coq_targets())
     if not ok:
-        raise C.CheckError("Coq build failed:\n" + out[-3000:])
+        body = spec.obligation_failure(out)
+        if body is None:
+            raise C.CheckError("Coq build failed:\n" + out[-3000:])
+        kind, text, has_input = body
+        p = C.write_replay(P, "obligation-%d" % seed, text)
+        C.violation(P, p, no_input=not has_input)
+        C.write_evidence(P, tier, seed, dict(obligations=1, discharged=0, checker_cmd="make " + " ".join(spec.coq_targets()),
+                                             trusted_base=C.TRUSTED_BASE, explanation=kind, evaluations=1, distinct_nontrivial=1),
+                         spec.assumptions, time.time() - t0, 1)
+        return 1
     ob = C.property_obligations(P)
     C.build_checker()
     ok, out = C.build_harness()
